@@ -128,8 +128,11 @@ func vDrawObject() (*unstructured.Unstructured, *vObjState) {
 }
 
 type vInner struct {
-	kind int // 0 condition Available==True, 1 fieldsEqual replicas/updatedReplicas, 2 empty
+	kind int // 0 condition Available==True, 1 fieldsEqual replicas/updatedReplicas, 2 empty, 3 CEL
+	rule int // CEL: index into vCELRules
 }
+
+var vCELRules = []string{"true", "false", "has(self.status)"}
 
 type vProbeSpec struct {
 	kindSel  int // 0 none, 1 apps/Deployment, 2 apps/StatefulSet
@@ -158,9 +161,18 @@ func vDrawProbes() ([]corev1alpha1.ObjectSetProbe, []vProbeSpec) {
 		}
 		ni := verifrt.IntRange(p+".nInner", 0, verifrt.Bound("maxInner", 2))
 		for j := 0; j < ni; j++ {
-			in := vInner{kind: verifrt.IntRange(p+".inner"+strconv.Itoa(j), 0, 2)}
+			in := vInner{kind: verifrt.IntRange(p+".inner"+strconv.Itoa(j), 0, 2+verifrt.Bound("withCEL", 0))}
+			if in.kind == 3 {
+				in.rule = verifrt.IntRange(p+".inner"+strconv.Itoa(j)+".celRule", 0, len(vCELRules)-1)
+			}
 			sp.inner = append(sp.inner, in)
 			switch in.kind {
+			case 3:
+				msg := ""
+				if verifrt.Bool(p + ".inner" + strconv.Itoa(j) + ".celMessage") {
+					msg = "cel says no"
+				}
+				osp.Probes = append(osp.Probes, corev1alpha1.Probe{CEL: &corev1alpha1.ProbeCELSpec{Rule: vCELRules[in.rule], Message: msg}})
 			case 0:
 				osp.Probes = append(osp.Probes, corev1alpha1.Probe{Condition: &corev1alpha1.ProbeConditionSpec{Type: "Available", Status: "True"}})
 			case 1:
@@ -260,7 +272,7 @@ func VerifC17Probing() {
 	obj, st := vDrawObject()
 	before := obj.DeepCopy()
 	prober, err := Parse(context.Background(), specs)
-	verifrt.Assert(err == nil, "C17/parse-succeeds-without-cel")
+	verifrt.Assert(err == nil, "C17/parse-succeeds")
 	ok, msgs := prober.Probe(obj)
 	verifrt.Assert(equality.Semantic.DeepEqual(before.Object, obj.Object), "C17/probing-does-not-change-the-object")
 
@@ -298,6 +310,12 @@ func VerifC17Probing() {
 					want = false
 					wantMsgs++
 				}
+			case 3:
+				pass := in.rule == 0 || (in.rule == 2 && st.statusKind != 0)
+				if !pass {
+					want = false
+					wantMsgs++
+				}
 			}
 		}
 	}
@@ -316,5 +334,26 @@ func VerifC17Probing() {
 		verifrt.Reach("pass")
 	} else {
 		verifrt.Reach("fail")
+	}
+}
+
+// VerifC17CELRules: a probe list with a CEL rule parses iff the rule compiles and is boolean.
+func VerifC17CELRules() {
+	rules := []string{"true", "has(self.status)", "1", "'text'", "self.metadata", "self.("}
+	k := verifrt.IntRange("rule", 0, len(rules)-1)
+	specs := []corev1alpha1.ObjectSetProbe{{
+		Probes: []corev1alpha1.Probe{
+			{Condition: &corev1alpha1.ProbeConditionSpec{Type: "Available", Status: "True"}},
+			{CEL: &corev1alpha1.ProbeCELSpec{Rule: rules[k], Message: "m"}},
+		},
+		Selector: corev1alpha1.ProbeSelector{Kind: &corev1alpha1.PackageProbeKindSpec{Group: "apps", Kind: "Deployment"}},
+	}}
+	prober, err := Parse(context.Background(), specs)
+	if k <= 1 {
+		verifrt.Assert(err == nil && prober != nil, "C17/boolean-cel-rule-accepted")
+		verifrt.Reach("cel-accepted")
+	} else {
+		verifrt.Assert(err != nil, "C17/cel-rules-must-be-boolean")
+		verifrt.Reach("cel-rejected")
 	}
 }
